@@ -26,19 +26,33 @@ type c14RecBreaker struct {
 	breaker.Breaker
 	allow bool
 	mark  string
+	core  verifc14.Core
+}
+
+// rejected: the answer of a rejecting breaker (the ctx check of the real breaker comes first)
+func (b *c14RecBreaker) rejected(ctx context.Context) error {
+	select {
+	case <-ctx.Done():
+		return ctx.Err()
+	default:
+		return breaker.ErrServiceUnavailable
+	}
+}
+
+// rec wraps the request so that what it returned to the breaker is known
+func (b *c14RecBreaker) rec(req func() error) func() error {
+	return func() error {
+		err := req()
+		b.core.Ran, b.core.Err = true, err
+		return err
+	}
 }
 
 func (b *c14RecBreaker) DoWithAcceptableCtx(ctx context.Context, req func() error, acceptable breaker.Acceptable) error {
 	if !b.allow {
-		// the ctx check of the real breaker comes first
-		select {
-		case <-ctx.Done():
-			return ctx.Err()
-		default:
-			return breaker.ErrServiceUnavailable
-		}
+		return b.rejected(ctx)
 	}
-	return b.Breaker.DoWithAcceptableCtx(ctx, req, func(err error) bool {
+	return b.Breaker.DoWithAcceptableCtx(ctx, b.rec(req), func(err error) bool {
 		ok := acceptable(err)
 		if ok {
 			b.mark = "ok"
@@ -47,6 +61,18 @@ func (b *c14RecBreaker) DoWithAcceptableCtx(ctx context.Context, req func() erro
 		}
 		return ok
 	})
+}
+
+// the other ways a request can be handed to the breaker (a change of the wrapper may use them): recorded the
+// same way; the breaker's own default verdict (err == nil) is what it is told then
+func (b *c14RecBreaker) DoCtx(ctx context.Context, req func() error) error {
+	return b.DoWithAcceptableCtx(ctx, req, func(err error) bool { return err == nil })
+}
+
+func (b *c14RecBreaker) Do(req func() error) error { return b.DoCtx(context.Background(), req) }
+
+func (b *c14RecBreaker) DoWithAcceptable(req func() error, acceptable breaker.Acceptable) error {
+	return b.DoWithAcceptableCtx(context.Background(), req, acceptable)
 }
 
 func c14Extra(e error) (string, error, bool) {
@@ -69,13 +95,30 @@ func c14BodyErr(cls string) error {
 	return nil
 }
 
+// c14Opts: the WithAcceptable options of an accept configuration, in option order
+func c14Opts(accept string) []SqlOption {
+	f1 := WithAcceptable(func(err error) bool { return errors.Is(err, verifc14.ErrUserOk) })
+	f2 := WithAcceptable(func(err error) bool { return errors.Is(err, verifc14.ErrUserOk2) })
+	switch accept {
+	case "none":
+		return nil
+	case "user":
+		return []SqlOption{f1}
+	case "user2":
+		return []SqlOption{f2}
+	case "both":
+		return []SqlOption{f1, f2}
+	}
+	panic("c14: bad accept " + accept)
+}
+
 // c14Sess: what a body does with its session. With a context (TransactCtx) every statement is made with the
 // context the body was handed (ExecCtx / QueryRowsCtx / nested TransactCtx), without one through the
 // context-less methods.
 func c14Sess(ctx context.Context, s Session, end func(bool)) verifc14.Sess {
 	nested := func(err error, ran bool) error {
 		if ran {
-			return errors.New("c14: nested body ran")
+			return verifc14.NewSrcErr("nestran", nil) // the nested Transact ran its body instead of refusing
 		}
 		return err
 	}
@@ -119,6 +162,36 @@ func c14Sess(ctx context.Context, s Session, end func(bool)) verifc14.Sess {
 			}
 			return err
 		},
+		QueryRow: func(q string) error {
+			var out string
+			var err error
+			if ctx != nil {
+				err = s.QueryRowCtx(ctx, &out, q)
+			} else {
+				err = s.QueryRow(&out, q)
+			}
+			if err == nil && out != "c14" {
+				return fmt.Errorf("c14: unexpected row %v", out)
+			}
+			return err
+		},
+		RawExec: func(q string) error {
+			rs := NewSessionFromTx(s.(txSession).Tx)
+			if ctx != nil {
+				_, err := rs.ExecCtx(ctx, q)
+				return err
+			}
+			_, err := rs.Exec(q)
+			return err
+		},
+		RawNest: func() error {
+			ran := false
+			err := NewSqlConnFromSession(NewSessionFromTx(s.(txSession).Tx)).Transact(func(Session) error {
+				ran = true
+				return nil
+			})
+			return nested(err, ran)
+		},
 		Nest: func() error {
 			ran := false
 			err := NewSqlConnFromSession(s).Transact(func(Session) error {
@@ -154,6 +227,28 @@ func c14Gen(r *verifh.Rng) []verifh.Section {
 	secs = append(secs, verifh.Section{Cfg: "via=onconn accept=none rec=0", Ops: verifc14.Exhaustive("ctx", exLen)})
 	secs = append(secs, verifh.Section{Cfg: "via=named accept=user rec=1", Ops: verifc14.Exhaustive("plain", verifh.Scale(2, 4))})
 	secs = append(secs, verifh.Section{Cfg: "via=named accept=none rec=1", Ops: verifc14.Exhaustive("ctx", verifh.Scale(1, 3))})
+	// the acceptable-error classes at every place an error comes from, through every entry point and every
+	// WithAcceptable configuration; two SqlConn instances with different options side by side
+	accLen := verifh.Scale(2, 3)
+	for _, c := range []struct{ via, api, a0, a1 string }{
+		{"fromdb", "ctx", "none", "both"}, {"fromdb", "plain", "user", "user2"}, {"fromdb", "ctx", "both", "none"},
+		{"named", "plain", "user2", "user"}, {"named", "ctx", "both", "both"}, {"onconn", "ctx", "none", "none"},
+	} {
+		ops := verifc14.ExhaustiveAcc(c.api, verifc14.AllClasses, accLen, 0)
+		rec := 1
+		if c.via == "onconn" {
+			rec = 0
+		} else {
+			// the same sweep on the second instance, interleaved call by call with the first
+			ops1 := verifc14.ExhaustiveAcc(c.api, verifc14.AllClasses, accLen, 1)
+			var mix []string
+			for i := range ops {
+				mix = append(mix, ops[i], ops1[i])
+			}
+			ops = mix
+		}
+		secs = append(secs, verifh.Section{Cfg: fmt.Sprintf("via=%s accept=%s accept1=%s rec=%d", c.via, c.a0, c.a1, rec), Ops: ops})
+	}
 	nsec := verifh.Scale(80, 1500)
 	for i := 0; i < nsec; i++ {
 		via := "fromdb"
@@ -172,16 +267,21 @@ func c14Gen(r *verifh.Rng) []verifh.Section {
 		default:
 			via = "namedbad"
 		}
-		accept := r.PickS("none", "user")
+		accept := r.PickS("none", "user", "user2", "both")
+		accept1 := r.PickS("none", "user", "user2", "both")
 		n := r.Range(4, 14)
 		if rec == 0 && via != "onconn" {
 			n = r.Range(3, 8) // a real breaker keeps its history over the section
 		}
 		var ops []string
 		for j := 0; j < n; j++ {
-			ops = append(ops, verifc14.GenOp(r, apis, verifc14.AllClasses, maxLen, rec == 1))
+			op := verifc14.GenOp(r, apis, verifc14.AllClasses, maxLen, rec == 1)
+			if via != "onconn" && r.Chance(1, 4) {
+				op += " inst=1"
+			}
+			ops = append(ops, op)
 		}
-		secs = append(secs, verifh.Section{Cfg: fmt.Sprintf("via=%s accept=%s rec=%d", via, accept, rec), Ops: ops})
+		secs = append(secs, verifh.Section{Cfg: fmt.Sprintf("via=%s accept=%s accept1=%s rec=%d", via, accept, accept1, rec), Ops: ops})
 	}
 	return secs
 }
@@ -193,39 +293,42 @@ func TestVerifC14(t *testing.T) {
 	verifh.Run(t, secs, func(cfg verifh.Cfg) (func(op []string) string, func()) {
 		via := cfg.Str("via", "fromdb")
 		rec := cfg.Int("rec", 1) == 1
-		var opts []SqlOption
-		if cfg.Str("accept", "none") == "user" {
-			opts = append(opts, WithAcceptable(func(err error) bool { return errors.Is(err, verifc14.ErrUserOk) }))
-		}
+		accept := cfg.Str("accept", "none")
+		// two SqlConn instances per section (ops say inst=0|1), built one after the other with their own
+		// WithAcceptable options over the same database: what one was given must not show in the other
+		opts := [2][]SqlOption{c14Opts(accept), c14Opts(cfg.Str("accept1", accept))}
 		var drv *verifc14.Drv
 		var db *sql.DB
-		var sc SqlConn
+		var scs [2]SqlConn
 		nth++
 		switch via {
 		case "fromdb":
 			drv = verifc14.NewDrv()
 			db = sql.OpenDB(drv)
-			sc = NewSqlConnFromDB(db, opts...)
+			scs[0], scs[1] = NewSqlConnFromDB(db, opts[0]...), NewSqlConnFromDB(db, opts[1]...)
 		case "onconn":
 			drv = verifc14.NewDrv()
 			db = sql.OpenDB(drv)
 		case "named":
 			drv = verifc14.Registered()
-			sc = NewSqlConn("c14drv", fmt.Sprintf("c14good-%d", nth), opts...)
+			ds := fmt.Sprintf("c14good-%d", nth)
+			scs[0], scs[1] = NewSqlConn("c14drv", ds, opts[0]...), NewSqlConn("c14drv", ds, opts[1]...)
 		case "namedbad":
 			drv = verifc14.Registered()
-			sc = NewSqlConn("c14drv", fmt.Sprintf("c14bad-%d", nth), opts...)
+			ds := fmt.Sprintf("c14bad-%d", nth)
+			scs[0], scs[1] = NewSqlConn("c14drv", ds, opts[0]...), NewSqlConn("c14drv", ds, opts[1]...)
 		default:
 			panic("c14: bad via " + via)
 		}
 		if via == "named" {
 			// a panicking Commit/Rollback of the driver leaves its connection checked out for good
 			// (database/sql never gets to release it): do not let the pool limit of 64 block the section
-			if raw, err := sc.RawDB(); err == nil {
+			if raw, err := scs[0].RawDB(); err == nil {
 				raw.SetMaxOpenConns(0)
 			}
 		}
-		call := func(api, kind string, brkAllow bool, body func(verifc14.Sess) error, mark *string) error {
+		call := func(api, kind string, brkAllow bool, inst int, body func(verifc14.Sess) error, mark *string, core *verifc14.Core) error {
+			sc := scs[inst]
 			// the context of the call: a real cancellable one, or (for a deadline) one the harness ends itself
 			var ctx context.Context
 			var end func(bool)
@@ -259,15 +362,16 @@ func TestVerifC14(t *testing.T) {
 			*mark = "?"
 			if rec {
 				rb := &c14RecBreaker{Breaker: breaker.NewBreaker(), allow: brkAllow, mark: "-"}
+				rb.core.Seen = true
 				sc.(*commonSqlConn).brk = rb
-				defer func() { *mark = rb.mark }()
+				defer func() { *mark, *core = rb.mark, rb.core }()
 			}
 			if api == "plain" {
 				return sc.Transact(func(s Session) error { return body(c14Sess(nil, s, nil)) })
 			}
 			return sc.TransactCtx(ctx, fnCtx)
 		}
-		h := verifc14.Hooks{Call: call, BodyErr: c14BodyErr, Extra: c14Extra, Plan: drv.P,
+		h := verifc14.Hooks{Call: call, BodyErr: c14BodyErr, Extra: c14Extra, Plan: drv.P, MkAcc: newAcceptableError,
 			Texts: map[string]string{errCantNestTx.Error(): "nest"}}
 		return func(op []string) string { return verifc14.RunOp(op, h) }, func() {
 			if db != nil {
